@@ -352,6 +352,8 @@ func checkC11(c *Ctx) {
 					}
 				case "select":
 					report("C11.T6", "select", p.Pos(t.Pos), "an event-relevant function uses select: an event may be dropped or reordered when the listener is slow", &t6ok)
+				case "recursion":
+					report("C11.T6", "recursion:"+t.Label, p.Pos(t.Pos), "the event-relevant function "+t.Label+" is called recursively: the events of the inner call repeat inside the outer one (two starts before a done, a second close)", &t6ok)
 				case "go":
 					report("C11.T6", "go", p.Pos(t.Pos), "an event-relevant function starts a goroutine: events may be reordered and a panic there cannot be recovered", &t6ok)
 				}
